@@ -228,8 +228,17 @@ theorem verify_cert_uses_configured_name :
        ("certificate", "self._peer_certificate"), ("chain", "self._peer_certificate_chain"),
        ("server_name", "self._server_name")] ∧
     configWriters =
-      [("_server_name", ["__init__"]), ("_cadata", ["__init__"]), ("_cafile", ["__init__"]),
-       ("_capath", ["__init__"]), ("_verify_mode", ["__init__"])] := ⟨rfl, rfl⟩
+      [("_server_name", ["__init__"]), ("_cadata", ["__init__"]), ("_cafile", ["__init__"]), ("_capath", ["__init__"]), ("_verify_mode", ["__init__"]), ("_cipher_suites", ["__init__"]), ("_alpn_protocols", ["__init__"]), ("_signature_algorithms", ["__init__"]), ("_supported_groups", ["__init__"]), ("_supported_versions", ["__init__"]), ("_legacy_compression_methods", ["__init__"]), ("_psk_key_exchange_modes", ["__init__"])] := ⟨rfl, rfl⟩
+
+/-- "when the configurations share no common option ... / the negotiated option is one both
+    configurations allow": what the client OFFERS is a function of its configuration only — the
+    ClientHello is built from the configuration attributes themselves (cipher suites, compression
+    methods, ALPN, signature algorithms, TLS versions; `psk_key_exchange_modes` is the configured
+    list or absent), and no method of `Context` other than the constructor assigns or mutates
+    them (`configWriters` in `verify_cert_uses_configured_name`).  In particular a session ticket
+    cannot add a cipher suite to the offer. -/
+theorem offer_is_configuration_only : clientHelloOffer =
+      [("cipher_suites", "[int(x) for x in self._cipher_suites]"), ("legacy_compression_methods", "self._legacy_compression_methods"), ("alpn_protocols", "self._alpn_protocols"), ("psk_key_exchange_modes", "self._psk_key_exchange_modes if self.session_ticket or self.new_session_ticket_cb is not None else None"), ("signature_algorithms", "self._signature_algorithms"), ("supported_versions", "self._supported_versions"), ("other_extensions", "self.handshake_extensions")] := rfl
 
 /-- "... a certificate that VALIDATES ...": the trust anchors of `verify_certificate` are
     only configured CA material — the certifi bundle when nothing is configured, the
@@ -491,6 +500,7 @@ end AQ.Props.C03
 #print axioms AQ.Props.C03.verify_cert_uses_configured_name
 #print axioms AQ.Props.C03.auth_values_are_rfc
 #print axioms AQ.Props.C03.trust_store_only_configured
+#print axioms AQ.Props.C03.offer_is_configuration_only
 #print axioms AQ.Props.C03.negotiation_first
 #print axioms AQ.Props.C03.agreement_partial
 #print axioms AQ.Props.C03.byte_flip_blocks_partial
